@@ -310,10 +310,17 @@ def sched_dependent(case, mo, io):
     waiting for the accept to be re-armed), whether the second is accepted or refused as busy depends on whether the
     reaper (protocol pipe_close of the first) or the accept callback (protocol pipe_start of the second) runs first.
     Both orders are legal; the model driver fixes one.  Such lines are not compared."""
-    if not case or case[0].split()[-1] not in ("pair0", "pair1"):
-        return False
     a, b = parse(mo), parse(io)
     if a is None or b is None:
+        return False
+    # any protocol: several pipes are started by one command on different endpoints (their callbacks run on different
+    # task threads) and a finite "cbclose" counter is consumed by whichever callback comes first
+    ea = sorted(e.rstrip("x") for e in a["ev"])
+    eb = sorted(e.rstrip("x") for e in b["ev"])
+    if ea == eb and len(set(e.split(":")[0] for e in a["ev"])) >= 2 and \
+            sum(e.endswith("x") for e in a["ev"]) == sum(e.endswith("x") for e in b["ev"]) and a["ev"] != b["ev"]:
+        return True
+    if not case or case[0].split()[-1] not in ("pair0", "pair1"):
         return False
     pa = set(e.split(":")[0] for e in a["ev"])
     pb = set(e.split(":")[0] for e in b["ev"])
